@@ -223,11 +223,31 @@ class CSemantics:
 
         # Determine if we need implicit init levels:
         target_typ = init_cursor.at_typ()
-        if isinstance(value, expressions.StringLiteral) and (
-            target_typ.is_array
-            and target_typ.element_type.is_integer
-            and self.context.sizeof(target_typ.element_type) == 1
+        level = init_cursor.level
+        if (
+            isinstance(value, expressions.StringLiteral)
+            and self.is_character_array(level.typ)
+            and not level.implicit
+            and level.pos == 0
+            and not level.initializer.values
         ):
+            # The string for a character array may be enclosed in braces:
+            # char s[] = {"abc"}; (C99 6.7.8p14)
+            array_value = self.on_string_initializer(
+                level.typ, value.value, value.location
+            )
+            level.initializer.values.extend(array_value.values)
+            # Step to the last element, the string was for all of them:
+            if level.size is None:
+                last = len(array_value.values) - 1
+            else:
+                last = level.size - 1
+            level.go_to_pos(max(last, 0))
+            return
+
+        if isinstance(
+            value, expressions.StringLiteral
+        ) and self.is_character_array(target_typ):
             # A character array member initialized by a string:
             value = self.on_string_initializer(
                 target_typ, value.value, value.location
@@ -253,6 +273,14 @@ class CSemantics:
             )
             self.warning("previously defined here.", previous_value.location)
         init_cursor.set_value(value)
+
+    def is_character_array(self, typ):
+        """Test if the type is an array that a string can initialize."""
+        return (
+            typ.is_array
+            and typ.element_type.is_integer
+            and self.context.sizeof(typ.element_type) == 1
+        )
 
     def on_string_initializer(self, typ, value: str, location):
         """An array of characters is initialized by a string.
